@@ -58,6 +58,17 @@ fn params(cfg: &RepoCfg) -> TreeParams {
     p
 }
 
+/// The compression level is irrelevant here, and the highest zstd levels cost seconds per
+/// thousand blobs (a copy between repositories with unrelated chunk sizes has thousands).
+fn tame(mut cfg: RepoCfg) -> RepoCfg {
+    if let Some(l) = cfg.compression {
+        if l > 6 {
+            cfg.compression = Some(l % 7);
+        }
+    }
+    cfg
+}
+
 // ------------------------------------------------------------------ log predicates
 
 /// snapshot, index and pack files: the file types the statement protects
@@ -360,12 +371,42 @@ fn exec(p: &Prep, storage: &Arc<Storage>, cfg: &RepoCfg) -> Result<ExecOut, Stri
 }
 
 /// run on the storage and return the result with the log slice of the run
+///
+/// Only operations of handles created by this run are returned: worker threads of an earlier
+/// crashed backup may still be issuing (failing) writes on their dead handle.
 fn exec_logged(p: &Prep, storage: &Arc<Storage>, cfg: &RepoCfg) -> (Result<ExecOut, String>, Vec<Op>) {
+    let marker = storage.handle().h.id;
     let pos = storage.log.len();
     let r = exec(p, storage, cfg);
+    (r, log_since(storage, pos, marker))
+}
+
+/// Best effort to also see writes issued by worker threads the command left behind: wait until
+/// the log stopped growing for two short intervals. Only ever makes the check stricter.
+fn settle(log: &OpLog) {
+    let mut n = log.len();
+    let mut stable = 0;
+    for _ in 0..20 {
+        std::thread::sleep(std::time::Duration::from_millis(2));
+        let m = log.len();
+        if m == n {
+            stable += 1;
+            if stable == 2 {
+                return;
+            }
+        } else {
+            stable = 0;
+            n = m;
+        }
+    }
+}
+
+fn log_since(storage: &Arc<Storage>, pos: usize, marker: u32) -> Vec<Op> {
+    settle(&storage.log);
     let mut log = storage.log.snapshot();
-    let slice = log.split_off(pos.min(log.len()));
-    (r, slice)
+    let mut slice = log.split_off(pos.min(log.len()));
+    slice.retain(|o| o.handle > marker);
+    slice
 }
 
 /// a copy of the storage whose config has append-only mode turned off (through the library: the
@@ -494,7 +535,7 @@ fn aop(p: TreeParams) -> BoxedStrategy<AOp> {
 }
 
 fn ao_strategy(_ctx: &Ctx) -> BoxedStrategy<AoCase> {
-    (repo_cfg(), repo_cfg(), prop::bool::weighted(0.3))
+    (repo_cfg().prop_map(tame), repo_cfg().prop_map(tame), prop::bool::weighted(0.3))
         .prop_flat_map(|(cfg, mut src_cfg, at_init)| {
             if src_cfg.key_seed == cfg.key_seed {
                 src_cfg.key_seed += 1;
@@ -883,6 +924,9 @@ fn run_ao(c: &AoCase, _ctx: &Ctx) -> Outcome {
             }
         };
         executed += 1;
+        if std::env::var_os("VP_DEBUG").is_some() {
+            eprintln!("op {i} ({name}) starts");
+        }
 
         // what the same call does to a copy of the repository in normal mode
         let mut would: Option<String> = None;
@@ -898,9 +942,15 @@ fn run_ao(c: &AoCase, _ctx: &Ctx) -> Outcome {
             }
         }
 
+        if std::env::var_os("VP_DEBUG").is_some() {
+            eprintln!("op {i} ({name}) normal-mode run done, would remove: {would:?}");
+        }
         let before = storage.files();
         let (res, slice) = exec_logged(&prep, &storage, &c.cfg);
         let after = storage.files();
+        if std::env::var_os("VP_DEBUG").is_some() {
+            eprintln!("op {i} ({name}) returned {:?}", res.as_ref().map(|_| ()));
+        }
 
         // invariant, independent of what the call reported
         if let Some(v) = destructive(&slice) {
@@ -1040,7 +1090,16 @@ fn dry_cmd(p: TreeParams) -> BoxedStrategy<DryCmd> {
         3 => (any::<bool>(), dmg).prop_map(|(read_all, damage)| DryCmd::RepairIndex { read_all, damage }),
         3 => (any::<bool>(), prop::option::weighted(0.7, any::<u16>()), any::<u8>())
             .prop_map(|(delete, lose_pack, mask)| DryCmd::RepairSnapshots { delete, lose_pack, mask }),
-        3 => rw_cfg().prop_map(DryCmd::Rewrite),
+        4 => (rw_cfg(), prop::bool::weighted(0.6)).prop_map(|(mut rw, with_trees)| {
+            // mostly the variant that has tree blobs to save
+            if with_trees {
+                rw.trees = true;
+                if rw.glob == 0 {
+                    rw.glob = 1 + rw.mask % 4;
+                }
+            }
+            DryCmd::Rewrite(rw)
+        }),
         2 => (prop::collection::vec(any::<u16>(), 0..4), prop::collection::vec(any::<u16>(), 0..3))
             .prop_map(|(drop_hot, drop_cold)| DryCmd::HotCold { drop_hot, drop_cold }),
         4 => (
@@ -1063,6 +1122,7 @@ fn dry_cmd(p: TreeParams) -> BoxedStrategy<DryCmd> {
 
 fn dry_strategy(_ctx: &Ctx) -> BoxedStrategy<DryCase> {
     repo_cfg()
+        .prop_map(tame)
         .prop_flat_map(|cfg| {
             let p = params(&cfg);
             (
@@ -1265,6 +1325,7 @@ fn run_hotcold(c: &DryCase, drop_hot: &[u16], drop_cold: &[u16], mut out: Outcom
             .repair_hotcold_packs(true)
             .map_err(|e| estr(&e))
     });
+    settle(&log);
     let mut all = log.snapshot();
     let slice = all.split_off(pos.min(all.len()));
     if let Some(m) = first_mutation(&slice, true) {
@@ -1388,6 +1449,7 @@ fn run_dry(c: &DryCase, _ctx: &Ctx) -> Outcome {
             if live.is_empty() {
                 return out.skip("no_snapshot");
             }
+            let marker = storage.handle().h.id;
             let repo = match open_full(&storage, &cfg) {
                 Ok(r) => r,
                 Err(_) => return out.skip("open_failed"),
@@ -1436,8 +1498,7 @@ fn run_dry(c: &DryCase, _ctx: &Ctx) -> Outcome {
                 })
             };
             let res = run(true);
-            let mut log = storage.log.snapshot();
-            let slice = log.split_off(pos.min(log.len()));
+            let slice = log_since(&storage, pos, marker);
             if let Some(m) = first_mutation(&slice, true) {
                 out.failure = Some(format!("prepare_restore in dry-run mode performed a {m} on the repository"));
                 return out;
@@ -1508,16 +1569,16 @@ pub fn spec() -> PropSpec {
         subs: vec![
             Box::new(Sub {
                 name: "append_only",
-                cases_quick: 400,
-                cases_thorough: 12_000,
+                cases_quick: 1600,
+                cases_thorough: 48_000,
                 max_shrink_iters: 300,
                 strategy: ao_strategy,
                 run: run_ao,
             }) as Box<dyn DynSub>,
             Box::new(Sub {
                 name: "dry_run",
-                cases_quick: 300,
-                cases_thorough: 9000,
+                cases_quick: 1200,
+                cases_thorough: 36_000,
                 max_shrink_iters: 300,
                 strategy: dry_strategy,
                 run: run_dry,
